@@ -186,6 +186,8 @@ ConsolidateOK(r) ==
   /\ before \subseteq DOMAIN sh /\ remaining \subseteq before
   \* returned shards exist and are named by their content hash
   /\ \A x \in rets : x.exists /\ x.name_ok
+  \* ... and their records are found through their own lookup tables
+  /\ \A x \in rets : x.lookup_ok
   \* every record retrievable before is retrievable from a returned shard
   /\ \A sid \in before : /\ \A h \in DOMAIN sh[sid].files : \E x \in rets : FileIn(h, sh[sid].files[h], x.files)
                          /\ \A h \in DOMAIN sh[sid].xorbs : \E x \in rets : XorbIn(h, sh[sid].xorbs[h], x.xorbs)
